@@ -93,11 +93,16 @@ class _P:
                     self.i += 1
                     break
                 k = self.value()
-                self.expect(":")
-                v = self.value()
-                entries.append((k, v))
+                if self.peek() == ":":
+                    self.i += 1
+                    v = self.value()
+                    entries.append((k, v))
+                else:
+                    entries.append((k, None))   # a set
                 if self.peek() == ",":
                     self.i += 1
+            if entries and all(v is None for _, v in entries):
+                return ("tup", "Set", [k for k, _ in entries])
             return ("map", entries)
         if c == '"':
             return ("atom", self.string('"'))
@@ -196,7 +201,6 @@ EQ = {
 }
 ORDER = {
     "Expr::Binary": ["op", "left", "right", "attrs"],
-    "TypeParam": ["ident", "attrs", "default", "bounds"],
     "Type::BareFn": ["unsafety", "variadic", "abi", "lifetimes", "inputs", "output"],
     "Expr::Closure": ["constness", "movability", "asyncness", "capture", "attrs", "lifetimes", "inputs", "output", "body"],
     "Expr::MethodCall": ["method", "attrs", "receiver", "turbofish", "args"],
@@ -232,6 +236,9 @@ def _param_of(path_t):
     """If `path_t` (decoded `Path`) is a single argument-free `_ŠČ…` segment return the identifier."""
     if path_t[0] != "N" or path_t[1] != "Path":
         return None
+    lead = path_t[3][0]
+    if lead != N("IgnL", [], [N("None")]):
+        return None   # syn::Path::get_ident requires leading_colon.is_none()
     segs = path_t[3][1]
     if segs[0] != "N" or segs[1] != "List" or len(segs[3]) != 1:
         return None
